@@ -907,6 +907,9 @@ func (r *Runner) RunSeq() {
 	if r.C.Hostile {
 		r.extra["arena"] = newArena()
 	}
+	if r.C.Free > 0 {
+		r.inc("fault_low_free_space_runs")
+	}
 	if r.C.FaultAt > 0 {
 		// fault arm: the n-th mutating call inside the merge side directory fails with an I/O error
 		n := 0
